@@ -16,6 +16,12 @@ CHECKS = {
  "C11": dict(cat="exploration", tech="online trace monitor (independent governance tally) over the real app's transaction/response log",
    text="An independent monitor re-derives vote tallies from the transaction log and asserts I1-I6 (threshold of distinct current members for the identical config, one vote per round, (sender,nonce) at most once, eon numbers fresh and increasing, restarts only for the newest eon after threshold failure votes, config start only after threshold block-seen reports) after every DeliverTx/EndBlock of generated histories. Only-if directions only.",
    note=TB_APP + "; refimpl.Governance", ref="§3 C11"),
+ "C12": dict(cat="exploration", tech="reference-model fold: EndBlock validator updates folded into a reference Tendermint validator set and compared with the set intended by the statement",
+   text="Histories of config votes, block-seen reports, check-ins in every order, key changes after the check-in fork and shared validator keys for n<=6 and every threshold run on the real app; each EndBlock's updates must be strictly sorted, acceptable to Tendermint's fold (no duplicates, no removal of absent keys, non-empty result) and produce exactly the intended set with >2/3 power on checked-in keypers; DiffPowermaps is enumerated exhaustively over 64x64 small power maps.",
+   note=TB_APP + "; refimpl.TMSet as the model of Tendermint's validator-set update rules", ref="§3 C12"),
+ "C13": dict(cat="fault_enumeration", tech="replay-equivalence monitor against state files saved at every height; strace-injected SIGKILL at every file syscall of a save; syscall-order monitor (write temp, fsync, rename)",
+   text="(a) apps loaded from the state file of height s replay the remaining blocks and must answer every CheckTx/DeliverTx/EndBlock and hold the same canonical state as the uninterrupted app; (b) a child process is killed by strace at entry of every openat/write/fsync/renameat/close of a save, after which the file must load as the previous (or, after the rename, the new) state; (c) the uninjected syscall trace must follow write-temp / fsync / rename; (d) temp-file prefixes never affect loading.",
+   note=TB_APP + "; strace as injector/observer; process death as the crash model (power loss only via the syscall-order monitor)", ref="§3 C13"),
 }
 
 NOT_APPLICABLE = {
